@@ -156,12 +156,8 @@ func BindAny(source, target am.Api) (string, error) {
 	fn := func(e *am.Event) {
 		tx := e.Transition()
 
-		// set if not set
-		states := tx.TargetStates()
-		if target.Is(states) {
-			return
-		}
-		target.Set(states, e.Args)
+		// always set, also when states got removed (a subset is still active)
+		target.Set(tx.TargetStates(), e.Args)
 	}
 	h := &struct {
 		AnyState am.HandlerFinal
